@@ -3,17 +3,68 @@
 package ntpestimator
 
 import (
+	"fmt"
+	"math/big"
 	"testing"
 	"time"
 
 	"verif.local/vmon"
 )
 
-var _ = time.Second
-
+// C24 through the estimator's public behaviour (no reference to its private helper): while no bound forces
+// a re-anchor, estimate == anchor + trunc((pts - anchorPTS) * 1e9 / rate), for pts differences of any size
+// whose exact result is representable.
 func TestVerifC24(t *testing.T) {
 	r := vmon.Begin(t, "C24", "exploration")
+	rng := r.Rand("c24ntp")
+	var nowNS int64
+	timeNow = func() time.Time { return time.Unix(0, nowNS) }
+	defer func() { timeNow = time.Now }()
 	n := r.N(150000, 20000000)
-	vmon.ScaleMonitor(r, "ntpestimator.multiplyAndDivide/ticks2ns", vmon.TicksToNanos, 1<<32, n, func(v, m, d int64) int64 { return int64(multiplyAndDivide(time.Duration(v), time.Duration(m), time.Duration(d))) })
-	r.Finish(vmon.ScaleRule, "oracle: math/big product-then-truncated-quotient")
+	for i := 0; i < n; i++ {
+		rate := vmon.ScaleRates[rng.IntN(len(vmon.ScaleRates))]
+		if rng.IntN(3) == 0 {
+			rate = 1 + int64(rng.Uint64()>>(32+rng.IntN(32)))
+		}
+		// tick difference up to ~100 years worth of nanoseconds, boundary biased
+		maxTicks := new(big.Int).Quo(new(big.Int).Mul(big.NewInt(3_000_000_000_000_000_000), big.NewInt(rate)), big.NewInt(1_000_000_000))
+		var d int64
+		if maxTicks.IsInt64() {
+			d = int64(rng.Uint64()>>rng.IntN(63)) % (maxTicks.Int64() + 1)
+		} else {
+			d = int64(rng.Uint64() >> (1 + rng.IntN(62)))
+		}
+		switch rng.IntN(5) {
+		case 0:
+			d = (d/rate)*rate + int64(rng.IntN(3)) - 1
+		case 1:
+			d = 9_223_372_037 + int64(rng.IntN(2000)) - 1000 // around 2^63 / 1e9
+		}
+		if d < 0 {
+			d = 0
+		}
+		q := new(big.Int).Mul(big.NewInt(d), big.NewInt(1_000_000_000))
+		q.Quo(q, big.NewInt(rate))
+		if !q.IsInt64() || q.Int64() > 3_000_000_000_000_000_000 {
+			r.Count("skipped_unrepresentable", 1)
+			continue
+		}
+		e := &Estimator{ClockRate: int(rate)}
+		p0 := int64(rng.Uint64() >> 20)
+		nowNS = 1_700_000_000_000_000_000
+		e.Estimate(p0)
+		lag := int64(1_000_000 + rng.IntN(1_000_000_000))
+		nowNS = 1_700_000_000_000_000_000 + q.Int64() + lag
+		got := e.Estimate(p0 + d).UnixNano()
+		want := 1_700_000_000_000_000_000 + q.Int64()
+		key := ""
+		if d > 1<<32 && d%rate != 0 {
+			key = fmt.Sprintf("%d|%d", rate, d)
+		}
+		r.Eval(key)
+		if got != want {
+			r.Violation("scale:ntpestimator.Estimate", fmt.Sprintf("clock rate %d, %d ticks after the anchor (clock %d ns ahead of the exact position): estimate is anchor+%d ns, exact trunc(ticks*1e9/rate) = %d ns", rate, d, lag, got-1_700_000_000_000_000_000, q.Int64()), map[string]any{"rate": rate, "ticks": d})
+		}
+	}
+	r.Finish(vmon.ScaleRule+" || ntpestimator: through Estimator.Estimate under a virtual clock (anchor, then one estimate d ticks later with the clock 1 ms..1 s ahead, so that no bound forces a re-anchor)", "oracle: math/big product-then-truncated-quotient")
 }
